@@ -187,6 +187,15 @@ class Registry:
         self.contracts[key] = c
         return c
 
+    def harness(self, name, relpath, params, body, ensures, requires=(), inline=(), props=()):
+        '''A lemma stated as a few lines of Python over the real functions (run in the namespace of the
+        given repository module; the listed functions are executed from their real source, the rest through
+        their contracts).'''
+        c = Contract('harness:' + name, params=params, requires=requires, ensures=ensures, props=props)
+        c.harness = (relpath, body, list(inline))
+        self.contracts[c.key] = c
+        return c
+
     def builtin(self, name, **kw):
         c = Contract('builtin:' + name, **kw)
         if c.trusted is None:
